@@ -699,6 +699,8 @@ pub fn run_stream(name: &str, thorough: bool, rng: &mut Rng, o: &mut Out) {
     let scale = if thorough { 10 } else { 1 };
     match name {
         "const" => o.consts(),
+        // the tuple conversions on the quick tier's lattice whatever the tier (C06 does not need C18's exhaustive run)
+        "vfrom_lattice" => run_stream("vfrom", false, rng, o),
         "vcmp_pool" => {
             for (a, b) in word_boundary_pairs() {
                 o.vcmp(&a, &b);
